@@ -7,6 +7,8 @@
    state: Authorization._post_parse_request writes the verified URI into the request it was given,
    post_authentication (oauth2/authorization.py) derives return_uri from the request it was given
    (get_uri once more), nothing is kept on the endpoint between calls.
+   The second part (completion) adds the registration in force when the response is built: it may differ
+   from the one the request was parsed under, and a stored request is never parsed at all.
    No proofs here.  Tied to the code by harness/drv_C06.py (schedules run on the real endpoint). *)
 From Coq Require Import String.
 From Verif Require Import Lib.Base Lib.PyStr Lib.Urlenc Lib.Html Model.Uri Model.Delivery.
@@ -173,3 +175,77 @@ Definition diag_flight (c : fcase) : list (nat * answer) :=
 Definition flight_outside (c : fcase) : nat :=
   let '(reqs, sched, obs) := c in
   length (filter (fun m => match snd m with AOutside => true | _ => false end) (run_flight ep_model reqs sched)).
+
+(* ================================================================== completion: the SECOND judgement of the redirect URI *)
+(* The redirect URI is judged twice: by parse_request (parse_step, under the registration in force then) and
+   again when the response is built — Authorization.post_authentication calls get_uri once more, and so does
+   error_by_response_mode before it sends an error by redirect (authz_part2).  Between the two the client's
+   registration may change (a URI de-registered or replaced, the application type changed, the client deleted),
+   and a host may resume a flow after the login page from a STORED request that the endpoint never parsed
+   (example/flask_op/views.py::verify: create_session + authz_part2).  The areq carries the registration in
+   force when it was parsed (q_regs, q_native); the one in force when the response is built is an argument. *)
+Inductive regn := Gone | Reg (regs : list reg) (native : bool).
+(* the response_mode parameter of the request *)
+Inductive rmode := MNone | MQuery | MFragment | MForm.
+
+(* verify_uri looks the client up first: KeyError("No client info found") *)
+Definition get_uri_at (g : regn) (oidc : bool) (u : option pystr) : res pystr :=
+  match g with
+  | Gone => Err KeyError
+  | Reg regs native => get_uri regs native oidc u
+  end.
+
+(* error_by_response_mode with a verified return_uri v: response_mode(request, response_args, return_uri);
+   without response_mode in the request KeyError leaves authz_part2 *)
+Definition by_mode (md : rmode) (v : pystr) (p : areq) : answer :=
+  match md with
+  | MNone => AOther
+  | MForm => match deliver_form v (q_args p) with Ok pg => APage pg | _ => AOutside end
+  | MQuery => if url_refused p then AOther
+              else match deliver_url v (q_args p) false with Ok u => ARedirect u | _ => AOutside end
+  | MFragment => if url_refused p then AOther
+                 else match deliver_url v (q_args p) true with Ok u => ARedirect u | _ => AOutside end
+  end.
+
+(* authz_part2 + do_response on request p under registration g.
+   failed: post_authentication raises for a reason that has nothing to do with the redirect URI (the session
+   ended between login and completion); q_args p are then the parameters of the error message.
+   - get_uri succeeds: the response (or, when completion failed, the error, placed by response_mode) goes to v;
+   - get_uri raises RedirectURIError / ParameterError: error_response WITHOUT return_uri;
+   - get_uri raises anything else: `except Exception` -> error_by_response_mode -> get_uri raises again ->
+     the error message WITHOUT return_uri.
+   Without return_uri do_response has no place to put the message (KeyError): the host answers itself. *)
+Definition complete (g : regn) (md : rmode) (failed : bool) (p : areq) : answer :=
+  match get_uri_at g (q_oidc p) (q_uri p) with
+  | Ok v => if failed then by_mode md v p else deliver_to v p
+  | Err _ => AOther
+  | Unmodelled => AOutside
+  end.
+(* process_request looks the client up before anything else (KeyError leaves it) *)
+Definition process_call (g : regn) (md : rmode) (p : areq) : answer :=
+  match g with Gone => AOther | _ => complete g md false p end.
+
+(* the whole history of one request: parsed under its own registration (or taken from where the host stored
+   it, never parsed), completed under g *)
+Definition answer_at (stored via_process failed : bool) (g : regn) (md : rmode) (r : areq) : answer :=
+  if stored then complete g md failed r
+  else match parse_step r with
+       | Redirectable v => if via_process then process_call g md (set_uri r v) else complete g md failed (set_uri r v)
+       | d => of_decision d
+       end.
+
+(* for the non-vacuity example in Props/C06.v: a completion step that, when the second judgement fails, fills in
+   the request's own redirect_uri as the place to send the error to *)
+Definition complete_unverified (g : regn) (md : rmode) (p : areq) : answer :=
+  match get_uri_at g (q_oidc p) (q_uri p), q_uri p with
+  | Ok v, _ => deliver_to v p
+  | Err _, Some u => by_mode md u p
+  | _, _ => AOther
+  end.
+
+(* (stored, via process_request, completion failed, registration at completion, response_mode, request, observed) *)
+Definition ccase := (bool * bool * bool * regn * rmode * areq * answer)%type.
+Definition chk_complete (c : ccase) : bool :=
+  let '(stored, viap, failed, g, md, r, obs) := c in answer_eqb (answer_at stored viap failed g md r) obs.
+Definition diag_complete (c : ccase) : answer :=
+  let '(stored, viap, failed, g, md, r, obs) := c in answer_at stored viap failed g md r.
